@@ -118,7 +118,11 @@ def run_op(op, d, s, rng_seed, other, shared_algs=None):
         txt = cons.description() + d.description() + s.description()
         return len(txt), None
     if op == "str":
-        return [str(d) == repr(d), str(s)], None
+        cons = ck.CopelandMethod().compute_consensus_rankings(d, s, False)
+        seen = [str(cons) == repr(cons), len(cons), cons.nb_consensus, [str(r) for r in cons], str(cons[0]),
+                sorted(str(e) for e in cons.elements), cons.nb_elements, str(cons.associated_scoring_scheme),
+                str(cons.associated_dataset) == str(d)]
+        return [str(d) == repr(d), str(s), seen], None
     if op == "parcons_partition":
         p = ck.OrderedPartition.parcons_partition(d, s)
         return [sorted(map(str, (e.value for e in g))) for g in p.partition], p
